@@ -633,6 +633,59 @@ func runC18(c *run.Ctx) {
 			a := &ref.V{T: ref.TList(xs.T), L: []*ref.V{xs, xs}}
 			b := &ref.V{T: ref.TList(xs.T), L: []*ref.V{ref.VList(ref.TNum, ref.VNum(1), ref.VNum(2)), ref.VList(ref.TNum, ref.VNum(1), ref.VNum(2))}}
 			checkSameness(c, a, b, "shared sub-value", true)
+			// one node twice on one side, an equal copy and a DIFFERENT value on the other
+			for _, inner := range []*ref.Ty{ref.TList(ref.TNum), ref.TMap(ref.TStr, ref.TNum), ref.TObj(ref.F("p", ref.TNum), ref.F("q", ref.TStr))} {
+				mk := func(k float64) *ref.V {
+					switch inner.K {
+					case ref.KList:
+						return ref.VList(ref.TNum, ref.VNum(k), ref.VNum(2))
+					case ref.KMap:
+						return ref.VMap(ref.TStr, ref.TNum, ref.KV{K: ref.VStr("k"), V: ref.VNum(k)})
+					}
+					return ref.VObj(inner, ref.VNum(k), ref.VStr("s"))
+				}
+				m := mk(1)
+				shared := []*ref.V{
+					{T: ref.TList(inner), L: []*ref.V{m, m}},
+					{T: ref.TList(inner), L: []*ref.V{m, m, m}},
+					ref.VObj(ref.TObj(ref.F("u", inner), ref.F("v", inner)), m, m),
+					ref.VMap(ref.TStr, inner, ref.KV{K: ref.VStr("a"), V: m}, ref.KV{K: ref.VStr("b"), V: m}),
+					{T: ref.TList(ref.TList(inner)), L: []*ref.V{{T: ref.TList(inner), L: []*ref.V{m}}, {T: ref.TList(inner), L: []*ref.V{m}}}},
+				}
+				other := func(sh *ref.V, diffAt int) *ref.V { // a structurally fresh value, equal except (optionally) at one position
+					var rec func(v *ref.V, pos *int) *ref.V
+					rec = func(v *ref.V, pos *int) *ref.V {
+						if v == m {
+							k := 1.0
+							if *pos == diffAt {
+								k = 9
+							}
+							*pos++
+							return mk(k)
+						}
+						n := &ref.V{T: v.T}
+						for _, x := range v.L {
+							n.L = append(n.L, rec(x, pos))
+						}
+						for _, x := range v.O {
+							n.O = append(n.O, rec(x, pos))
+						}
+						for _, kv := range v.M {
+							n.M = append(n.M, ref.KV{K: kv.K, V: rec(kv.V, pos)})
+						}
+						return n
+					}
+					p := 0
+					return rec(sh, &p)
+				}
+				for _, sh := range shared {
+					for diffAt := -1; diffAt < 3; diffAt++ {
+						o := other(sh, diffAt)
+						checkSameness(c, sh, o, fmt.Sprintf("one node used several times vs fresh nodes (difference at occurrence %d)", diffAt), true)
+						checkSameness(c, o, sh, fmt.Sprintf("fresh nodes vs one node used several times (difference at occurrence %d)", diffAt), true)
+					}
+				}
+			}
 		})
 		// recorded findings, exercised so that they are reported every run
 		c.Case("known/nan", func() {
